@@ -12,6 +12,7 @@ from c01 import ENV_POOL, SBOM_FORMATS, check_others
 from c04 import enc_entries, dec_env
 
 NAMES = ["a", "a.b", "c-1"]
+UMASK = 0o022       # umask of the executor process of this shard (set by shard_run)
 SYMS = ["K1", "U1", "R1", "E1", "K2", "U2", "M2e", "D", "Rst", "Kb", "Ce"]
 MKEY = {"v1": "v", "v2": "version", "defaults": "v"}
 ENVROOTS = (b"env", b"env.build", b"env.launch")
@@ -212,10 +213,11 @@ def judge(step, rep, pre, post, names, layers, src, sh, case):
         if got_env != want_env:
             sh.violation("%s:env" % action, "%s: env files on disk %r, %s() returned %r" % (what, sorted(got_env), action, sorted(want_env)), case)
             return None
-        want_x = {b"exec.d/" + p.encode(): open(os.path.join(src, f), "rb").read() for p, f in spec["exec_d"]}
-        got_x = {k: e[2] for k, e in v1["dir"].items() if k.startswith(b"exec.d/") and e[0] == "f"}
+        # (an installed program has the source's content and permission bits, whatever the process umask)
+        want_x = {b"exec.d/" + p.encode(): (os.stat(os.path.join(src, f)).st_mode & 0o7777, open(os.path.join(src, f), "rb").read()) for p, f in spec["exec_d"]}
+        got_x = {k: (e[1], e[2]) for k, e in v1["dir"].items() if k.startswith(b"exec.d/") and e[0] == "f"}
         if got_x != want_x:
-            sh.violation("%s:execd" % action, "%s: exec.d on disk %r, %s() returned %r" % (what, sorted(got_x), action, sorted(want_x)), case)
+            sh.violation("%s:execd" % action, "%s: exec.d on disk %r, %s() returned %r (name: mode)" % (what, sorted((k, oct(v[0])) for k, v in got_x.items()), action, sorted((k, oct(v[0])) for k, v in want_x.items())), case)
             return None
         want_s = {f: bytes.fromhex(h) for f, h in spec["sboms"]}
         if v1["sboms"] != want_s:
@@ -225,8 +227,8 @@ def judge(step, rep, pre, post, names, layers, src, sh, case):
         for rel, h in spec["write_files"]:
             parts = rel.split("/")
             for i in range(1, len(parts)):
-                base.setdefault("/".join(parts[:i]).encode(), ("d", 0o755))
-            base[rel.encode()] = ("f", 0o644, bytes.fromhex(h))
+                base.setdefault("/".join(parts[:i]).encode(), ("d", 0o777 & ~UMASK))
+            base[rel.encode()] = ("f", 0o666 & ~UMASK, bytes.fromhex(h))      # written by the scripted callback itself, under the executor's umask
         for n, t in spec.get("symlinks", []):
             base[n.encode()] = ("l", t.encode())
         for rel in spec["delete_files"]:
@@ -281,7 +283,8 @@ def run_history(mon, base, hid, steps, names, sh, snapshots_out=None):
     for p in ("p1", "p2", "p3"):
         with open(os.path.join(src, p), "wb") as f:
             f.write(b"#!/bin/sh\necho " + p.encode() + b"\n")
-    case = {"steps": jsonable(steps), "names": names, "_layers": layers}
+        os.chmod(os.path.join(src, p), {"p1": 0o755, "p2": 0o775, "p3": 0o700}[p])
+    case = {"steps": jsonable(steps), "names": names, "_layers": layers, "umask": UMASK}
     try:
         mon.call({"op": "init", "layers_dir": layers, "app_dir": os.path.join(root, "app"), "bp_dir": os.path.join(root, "bp")})
         pre = vp.snapshot(layers)
@@ -333,7 +336,10 @@ def random_history(r, length):
 def shard_run(arg):
     kind, items, seed, work = arg
     sh = vp.Shard()
-    mon = vp.Mon("layers")
+    global UMASK
+    um = UMASK = vp.UMASKS[(items[0][0] if items else 0) % len(vp.UMASKS)]
+    sh.add("umasks", oct(um))
+    mon = vp.Mon("layers", umask=um)
     base = os.path.join(work, "w%d" % os.getpid())
     os.makedirs(base, exist_ok=True)
     try:
@@ -351,7 +357,7 @@ def shard_run(arg):
                 sh.violation("process-died:%s" % e.req.get("op"), "the process died (status %s) inside %s after the history %r" % (e.status, e.req.get("op"), [s.get("op") for s in steps]),
                              {"steps": jsonable(steps), "names": names, "died_on": e.req})
                 mon.close()
-                mon = vp.Mon("layers")
+                mon = vp.Mon("layers", umask=um)
             sh.count("histories")
     finally:
         mon.close()
@@ -382,7 +388,9 @@ def run(tier, seed, work):
 def replay(case, work):
     res = vp.Result("C02", "quick", 0, "exploration")
     sh = vp.Shard()
-    mon = vp.Mon("layers")
+    global UMASK
+    UMASK = case.get("umask", 0o022)
+    mon = vp.Mon("layers", umask=UMASK)
     run_history(mon, work, "replay", unjson(case["steps"]), case["names"], sh)
     mon.close()
     sh.nontrivial.update({"replay-a", "replay-b"})
